@@ -13,11 +13,11 @@ def run(ctx):
     #    snapshot reproduce the primary (entities + mappings + flood limits + bootstrap together,
     #    then the two families alone with their larger alphabets)
     r, it = M.mc(ctx, "MetaDB_mix.cfg", "mix", {"MaxOps": "= 3"}, INV, "", export=True)
-    items += M.sample(ctx, it, 3000 if th else 350, 1)
+    items += M.sample(ctx, it, 3000 if th else 300, 1)
     r, it = M.mc(ctx, "MetaDB_ent.cfg", "ent", {"MaxOps": "= 3"}, INV, "", export=True)
-    items += M.sample(ctx, it, 3000 if th else 300, 2)
+    items += M.sample(ctx, it, 3000 if th else 250, 2)
     r, it = M.mc(ctx, "MetaDB_map.cfg", "map", {"MaxOps": "= 3"}, INV, "", export=True)
-    items += M.sample(ctx, it, 3000 if th else 300, 3)
+    items += M.sample(ctx, it, 3000 if th else 250, 3)
     if th:
         M.mc(ctx, "MetaDB_mix.cfg", "mix deep", {"MaxOps": "= 4"}, INV, "", timeout=7200, coverage=True)
         M.mc(ctx, "MetaDB_ent.cfg", "ent deep", {"MaxOps": "= 4"}, INV, "", timeout=7200)
@@ -34,7 +34,7 @@ def run(ctx):
     rnd = random.Random(ctx.seed)
     for k in range(4 if th else 1):
         budget = M.random_budget(rnd) if k else (2, 10, 1, 1, 1003)
-        r, it = M.scripts(ctx, "scripts %d" % k, {"ent", "map", "boot"}, 300 if th else 100, 30, budget, INV, "", salt=k)
+        r, it = M.scripts(ctx, "scripts %d" % k, {"ent", "map", "boot"}, 300 if th else 70, 30, budget, INV, "", salt=k)
         items += it
     # 3. the real DBV2: primary against the database reopened from the binlog
     M.drive(ctx, "C16", items, "replay")
